@@ -1233,3 +1233,4 @@ K("_twin_surrogates_s", "timeseries", props=("C15", "C20"), lists3=("twins",),
 for _nm in ("ClimateNetwork._calculate_threshold_adjacency",):
     REG[_nm][0].contract.rtc_py = True
 from contracts import kernels2  # noqa: E402,F401
+from contracts import uses_extra_ts  # noqa
